@@ -337,8 +337,9 @@ func (s *Module) defineSyncStage() error {
 			err = s.billet.Traverse(func(_ []byte, n mpt.Node, _ []byte) bool {
 				nPaths, ok := pool.TryGet(n.Hash())
 				if !ok {
-					// if this situation occurs, then it's a bug in MPT pool or Traverse.
-					panic("failed to get MPT node from the pool")
+					// A node stored under several paths is visited once per path, while
+					// all of its paths (and children) were handled at the first visit.
+					return false
 				}
 				pool.Remove(n.Hash())
 				childrenPaths := make(map[util.Uint256][][]byte)
